@@ -254,6 +254,16 @@ func recoveredRegion(body *ast.BlockStmt, info *types.Info, noret noReturnFunc) 
 	// variables assigned from recover()
 	rec := map[types.Object]bool{}
 	ast.Inspect(body, func(x ast.Node) bool {
+		if vs, ok := x.(*ast.ValueSpec); ok && len(vs.Names) == 1 && len(vs.Values) == 1 { // var e = recover()
+			if call, ok := vs.Values[0].(*ast.CallExpr); ok {
+				if id, ok := call.Fun.(*ast.Ident); ok && id.Name == "recover" {
+					if o := info.Defs[vs.Names[0]]; o != nil {
+						rec[o] = true
+					}
+				}
+			}
+			return true
+		}
 		as, ok := x.(*ast.AssignStmt)
 		if !ok || len(as.Lhs) != 1 || len(as.Rhs) != 1 {
 			return true
